@@ -23,23 +23,30 @@ StrAt(k) == LET n == CHOOSE m \in 0..MaxLen : Off(m) < k /\ k <= Off(m + 1)
             IN [j \in 1..n |-> Alphabet[((r \div PowA(n - j)) % NA) + 1]]
 USeq == [k \in 1..Off(MaxLen + 1) |-> StrAt(k)]
 UniverseIsComplete == {USeq[k] : k \in 1..Len(USeq)} = U /\ Len(USeq) = Cardinality(U)
+\* the ends of the letter ranges and their neighbours (z Z y Y @ [ ` {), alone and inside names, paths and extensions: outside the enumerated
+\* universe, compared with it and with each other (a case fold that is off by one at either end of a range shows only here)
+EdgeStrs == << <<122>>, <<90>>, <<121>>, <<89>>, <<64>>, <<91>>, <<96>>, <<123>>, <<122,46,90>>, <<90,46,122>>, <<97,46,122>>, <<97,46,90>>, <<46,47,122>>, <<46,47,90>>,
+               <<65,122>>, <<97,90>>, <<97,47,122>>, <<65,47,90>> >>
+VSeq == USeq \o EdgeStrs
+PairsOver(a) == [j \in 1..Len(VSeq) |-> [a |-> a, b |-> VSeq[j], less |-> Less(a, VSeq[j]), eq |-> CIEqual(a, VSeq[j])]]
 Pairs(a) == [j \in 1..Len(USeq) |-> [a |-> a, b |-> USeq[j], less |-> Less(a, USeq[j]), eq |-> CIEqual(a, USeq[j])]]
 \* extensions with every case variant (with and without the leading dot)
 ToggleCase(c) == IF c >= 97 /\ c <= 122 THEN c - 32 ELSE IF c >= 65 /\ c <= 90 THEN c + 32 ELSE c
 RECURSIVE Variants(_)
 Variants(s) == IF s = <<>> THEN {<<>>} ELSE LET rest == Variants(Tail(s)) IN {<<Head(s)>> \o r : r \in rest} \cup {<<ToggleCase(Head(s))>> \o r : r \in rest}
-ExtPool == << <<120>>, <<46, 120>>, <<97, 66>>, <<46, 84, 120, 116>>, <<48>>, <<>>, <<46>> >>     \* "x" ".x" "aB" ".Txt" "0" "" "."
+ExtPool == << <<120>>, <<46, 120>>, <<97, 66>>, <<46, 84, 120, 116>>, <<48>>, <<>>, <<46>>, <<122>>, <<46, 90, 97, 121>> >>     \* "x" ".x" "aB" ".Txt" "0" "" "." "z" ".Zay"
 \* the extension may be given with or without its leading dot
 ExtEntry(e) == [ext |-> e, variants |-> SetToSeq(Variants(e) \cup (IF e # <<>> /\ e[1] = 46 THEN {Tail(v) : v \in Variants(e)} ELSE {<<46>> \o v : v \in Variants(e)}))]
 Emit(id, steps) == PrintT("S|" \o ToJson([id |-> id, steps |-> steps]))
 \* one TLC state per exported record: idx 1..|U| = the relation row of the idx-th string, then the path-law universe, the random-triple
 \* recordings and the exponent set
 NU == Len(USeq)
-Init == idx \in 1..(NU + 6)
+Init == idx \in 1..(NU + 6 + Len(EdgeStrs))
 Next == UNCHANGED idx
 Spec == Init /\ [][Next]_idx
 Export == IF idx <= NU THEN Emit(<<"rel", idx>>, << [op |-> "names_rel", pairs |-> Pairs(USeq[idx])] >>)
           ELSE IF idx = NU + 1 THEN PrintT("P|" \o ToJson([exponents |-> SetToSeq(0..31)]))
-          ELSE IF idx = NU + 2 THEN Emit(<<"paths">>, << [op |-> "path_laws", universe |-> USeq, extensions |-> [k \in 1..Len(ExtPool) |-> ExtEntry(ExtPool[k])]] >>)
+          ELSE IF idx = NU + 2 THEN Emit(<<"paths">>, << [op |-> "path_laws", universe |-> VSeq, extensions |-> [k \in 1..Len(ExtPool) |-> ExtEntry(ExtPool[k])]] >>)
+          ELSE IF idx > NU + 6 THEN Emit(<<"rel-edge", idx - NU - 6>>, << [op |-> "names_rel", pairs |-> PairsOver(EdgeStrs[idx - NU - 6])] >>)
           ELSE Emit(<<"cmp", idx - NU - 2>>, << [op |-> "cmp_random", salt |-> idx - NU - 2, count |-> 400] >>)
 ====
